@@ -51,7 +51,7 @@ PROPS = {
     'C15': dict(groups=['pgn'], ops={'g.pgn': ['tags', 'words', 'rt'], 'rx': ['sec', 'nsec', 'moves', 'n', 'res', 'rx']}),
     'C16': dict(groups=['parse'], ops={'pmove': ['r', 'rr']}, only_if={'pmove': ('r', 'ok')}),
     'C17': dict(groups=['tables'], ops={'tbl': ['v'], 'prim': ['v']}),
-    'C18': dict(groups=['prims'], ops={'prim': ['v'], 'bb': ['list', 'cnt', 'lo', 'hi']}),
+    'C18': dict(groups=['prims'], ops={'prim': ['v'], 'bb': ['list', 'cnt', 'lo', 'hi', 'alg', 'dbg']}),
     'C19': dict(groups=['flip'], ops={'flip': ['v', 'h']}),
     'C20': dict(groups=['render', 'prims'], ops={'render': ['s', 'f', 'd'], 'gstat': ['v'], 'bb': ['grid']}),
 }
@@ -230,7 +230,7 @@ def run_group(group, tier, seed, extra_env=None, force=False):
         if os.path.exists(os.path.join(out, 'done')) and not force:
             return out, json.load(open(os.path.join(out, 'timing.json')))
         # drop stale runs of this group
-        for d in glob.glob(os.path.join(CACHE, 'runs', f'{group}-{tier}-*')):
+        for d in glob.glob(os.path.join(CACHE, 'runs', f'{group}-{tier}-{seed}-*')):
             shutil.rmtree(d, ignore_errors=True)
         os.makedirs(out, exist_ok=True)
         t0 = time.time()
@@ -633,22 +633,37 @@ def run_property(prop, tier, seed):
                        tail=open(logh).read()[-3000:]), open(rp, 'w'), indent=1)
         violation(rp, ' no-failing-input-found')
     elif ok:
-        for g in spec['groups']:
+        # source drift (lib/drift.py): effort control only.  When a file / function the property is anchored in differs from
+        # the recorded source, the randomised groups are run with one or two ADDITIONAL generator seeds.
+        try:
+            import drift
+            drift_level, drift_info = drift.drift_for(prop, REPO)
+        except Exception as e:      # the detector must never break a check
+            drift_level, drift_info = 0, dict(error=str(e)[:200])
+        stats['source_drift'] = dict(level=drift_level, **drift_info)
+        runs = [(g, seed) for g in spec['groups']]
+        if tier == 'quick' and not os.environ.get('VERIF_NO_DRIFT'):
+            for k in range(drift_level):
+                runs += [(g, seed + 1000 * (k + 1)) for g in spec['groups'] if g not in ('tables', 'univ', 'prims')]
+        stats['seeds_run'] = sorted({sd for _, sd in runs})
+        for g, sd in runs:
             try:
-                rd, tm = run_group(g, tier, seed)
+                rd, tm = run_group(g, tier, sd)
             except (RuntimeError, subprocess.TimeoutExpired) as e:
                 rp = os.path.join(REPLAY_DIR, f'{prop}-{g}-run.json')
                 os.makedirs(os.path.dirname(rp), exist_ok=True)
                 json.dump(dict(property=prop, group=g, broken='harness/driver run failed or timed out', error=str(e)[:2000]), open(rp, 'w'), indent=1)
                 violation(rp, ' no-failing-input-found')
                 continue
-            rundirs[g] = rd
-            timing[g] = tm
-            try:
-                gen[g] = json.load(open(os.path.join(rd, 'gen.json')))
-            except Exception:
-                gen[g] = {}
-            f, md = compare_group(prop, g, rd, stats)
+            gk = g if sd == seed else f'{g}@seed{sd}'
+            rundirs[gk] = rd
+            timing[gk] = tm
+            if sd == seed:
+                try:
+                    gen[g] = json.load(open(os.path.join(rd, 'gen.json')))
+                except Exception:
+                    gen[g] = {}
+            f, md = compare_group(prop, gk, rd, stats)
             findings += f
             model_dis += md
         # corpus: discriminating inputs kept from earlier detections (one per seeded change), replayed on every run
@@ -721,7 +736,7 @@ def run_property(prop, tier, seed):
     )
     if leanchecker is not None:
         cov['leanchecker'] = leanchecker
-    for k in ('transposition_keys', 'distinct_moves_roundtripped', 'invalid_positions', 'key_table', 'corpus_ops', 'rx_patterns_not_found'):
+    for k in ('transposition_keys', 'distinct_moves_roundtripped', 'invalid_positions', 'key_table', 'corpus_ops', 'rx_patterns_not_found', 'source_drift', 'seeds_run'):
         if k in stats:
             cov[k] = stats[k]
     if level != 'proof' or obligations == 0:
